@@ -181,7 +181,7 @@ func bindPlaceholders(g *Gen, docs map[string]*Node) {
 	sort.Strings(keys)
 	// name relations that matter to string-prefix logic: sometimes the holder definition's name extends the target's name
 	// (node / nodeList, pet / pets)
-	if set["N_1"] && g.r.Intn(3) == 0 {
+	if set["N_1"] && g.r.Intn(2) == 0 {
 		if _, bound := g.Names.ToConcrete["N_1"]; !bound {
 			g.Names.Bind("N_1", g.concreteName(g.pickClass()))
 		}
